@@ -1,6 +1,5 @@
 package vsim
 
-
 import (
 	"fmt"
 	"strings"
@@ -92,8 +91,15 @@ func argInt(l wamp.List, i int) (int, bool) {
 
 // CheckOrdering verifies the per-peer ordering guarantees on what each
 // client received.
-func CheckOrdering(c *Ctx, clients []*TClient) {
+func CheckOrdering(c *Ctx, clients []*TClient) { CheckOrderingLossy(c, clients, nil) }
+
+// CheckOrderingLossy: the same, but for clients in lossy (sessions that
+// stopped reading for a while and may have lost any message, acknowledgements
+// included) only the relative order of what did arrive is checked: a slow
+// reader sees gaps, never a reordering.
+func CheckOrderingLossy(c *Ctx, clients []*TClient, lossy map[*TClient]bool) {
 	for _, cl := range clients {
+		strict := !lossy[cl]
 		// Subscription / registration activity as seen by this client.
 		unsubReq := map[wamp.ID]wamp.ID{}
 		unregReq := map[wamp.ID]wamp.ID{}
@@ -127,7 +133,7 @@ func CheckOrdering(c *Ctx, clients []*TClient) {
 					regActive[id] = false
 				}
 			case *wamp.Event:
-				if !subActive[x.Subscription] {
+				if strict && !subActive[x.Subscription] {
 					c.Violf("%s received EVENT for subscription %d outside SUBSCRIBED..UNSUBSCRIBED: %s", cl.Name, x.Subscription, Brief(x))
 				}
 				tag := tagOf(x.Arguments)
@@ -144,7 +150,7 @@ func CheckOrdering(c *Ctx, clients []*TClient) {
 			case *wamp.Invocation:
 				if !seenInv[x.Request] {
 					seenInv[x.Request] = true
-					if !regActive[x.Registration] {
+					if strict && !regActive[x.Registration] {
 						c.Violf("%s received a new INVOCATION for registration %d outside REGISTERED..UNREGISTERED", cl.Name, x.Registration)
 					}
 					tag := tagOf(x.Arguments) // c:<caller>:<n>
@@ -161,7 +167,7 @@ func CheckOrdering(c *Ctx, clients []*TClient) {
 				}
 			case *wamp.Result:
 				if p, _ := x.Details["progress"].(bool); p {
-					if finalSeen[x.Request] {
+					if strict && finalSeen[x.Request] {
 						c.Violf("%s: progressive RESULT for request %d after its final reply", cl.Name, x.Request)
 					}
 					if n, ok := argInt(x.Arguments, 1); ok {
